@@ -336,11 +336,12 @@ def _expected_lookup(genes: Sequence[Sequence[int]], query: Sequence[int], overl
 
 def _order_ok(result: Sequence[int], genes: Sequence[Sequence[int]], query: Sequence[int],
               length: int) -> bool:
-    """'In location order', demanded only where every reading agrees: the genes that do not span
-    the origin must appear by ascending (start, length) - for an origin-spanning query either
-    by coordinate or walking along the query from its start; origin-spanning genes must be in
-    ascending order of their start among themselves; their position relative to the other
-    genes is left free."""
+    """'In location order', demanded only where every reading agrees.  Accepted: (a) the genes
+    that do not span the origin appear by ascending (start, length) - for an origin-spanning query
+    either by coordinate or walking along the query from its start - and the origin-spanning
+    genes are in ascending order of their start among themselves (their position relative to the
+    other genes is left free); or (b) all genes appear in the order in which they are met when
+    walking along the location from its start."""
     plain = [i for i in result if not spans_origin(genes[i])]
     wrapped = [i for i in result if spans_origin(genes[i])]
 
@@ -351,13 +352,20 @@ def _order_ok(result: Sequence[int], genes: Sequence[Sequence[int]], query: Sequ
     def size(gene: Sequence[int]) -> int:
         return gene[1] - gene[0] if gene[0] < gene[1] else length - gene[0] + gene[1]
 
-    if not sorted_by(wrapped, lambda g: (g[0], size(g))):
-        return False
-    if sorted_by(plain, lambda g: (g[0], size(g))):
-        return True
-    if spans_origin(query):
-        return sorted_by(plain, lambda g: ((g[0] - query[0]) % length, size(g)))
-    return False
+    if sorted_by(wrapped, lambda g: (g[0], size(g))):
+        if sorted_by(plain, lambda g: (g[0], size(g))):
+            return True
+        if spans_origin(query) and sorted_by(plain, lambda g: ((g[0] - query[0]) % length, size(g))):
+            return True
+    # third reading: the order in which the genes are met when walking along the location from
+    # its start (a gene is met at its first base that lies inside the location)
+    qmask = arc_mask(query, length)
+
+    def met_at(gene: Sequence[int]) -> int:
+        inside = arc_mask(gene, length) & qmask
+        offsets = [(base - query[0]) % length for base in range(length) if inside >> base & 1]
+        return min(offsets) if offsets else length
+    return sorted_by(result, met_at)
 
 
 def _evaluate_lookup(record: Any, real: Sequence[Any], case: Dict[str, Any]) -> List[Tuple[str, bool, str]]:
@@ -603,11 +611,12 @@ def _overlap(first: Sequence[Tuple[int, int]], second: Sequence[Tuple[int, int]]
 
 
 def pinned_lookup(genes: Sequence[Sequence[int]], query: Sequence[int], overlapping: bool,
-                  length: int) -> List[int]:
+                  length: int, legacy_filter: bool = False) -> List[int]:
     """Model of the lookup AS PINNED (bisect start, step back over equal starts / overlapping
     predecessors, stop at the first gene that neither qualifies nor contains its successor;
-    multi-part queries: union of the per-part overlapping lookups filtered by containment).
-    Used ONLY to delimit the known-finding classes, never as an oracle."""
+    multi-part queries: union of the per-part overlapping lookups, filtered by containment unless
+    with_overlapping - `legacy_filter` gives the behaviour before the C08-F3 repair, which
+    filtered always).  Used ONLY to delimit the known-finding classes, never as an oracle."""
     order: List[int] = []
     for index, gene in enumerate(genes):                      # bisect_left insertion
         key = _sort_key(gene, length)
@@ -649,6 +658,8 @@ def pinned_lookup(genes: Sequence[Sequence[int]], query: Sequence[int], overlapp
         for index in single(part, True):
             if index not in features:
                 features.append(index)
+    if overlapping and not legacy_filter:
+        return features
     return [i for i in features if _contains(query_parts, gene_parts[i])]
 
 
@@ -675,7 +686,7 @@ def _is_f1(clause: str, case: Dict[str, Any]) -> bool:
     clause = _plain(clause)
     if case.get("fn") != "lookup" or clause not in ("within-exact", "overlapping-exact"):
         return False
-    if any(spans_origin(g) for g in case["genes"]) or _is_f3(clause, case):
+    if any(spans_origin(g) for g in case["genes"]):
         return False
     return _pinned_misses(case["genes"], case["q"], clause == "overlapping-exact", case["L"])
 
@@ -685,14 +696,18 @@ def _is_f2(clause: str, case: Dict[str, Any]) -> bool:
     clause = _plain(clause)
     if case.get("fn") != "lookup" or clause not in ("within-exact", "overlapping-exact"):
         return False
-    if not any(spans_origin(g) for g in case["genes"]) or _is_f3(clause, case):
+    if not any(spans_origin(g) for g in case["genes"]):
         return False
     return _pinned_misses(case["genes"], case["q"], clause == "overlapping-exact", case["L"])
 
 
 def _is_f3(clause: str, case: Dict[str, Any]) -> bool:
-    """with_overlapping lookups of an origin-spanning location return contained genes only."""
-    return case.get("fn") == "lookup" and _plain(clause) == "overlapping-exact" and _overlap_filter_case(case)
+    """with_overlapping lookups of an origin-spanning location return contained genes only
+    (repaired in /repo: the class only matters if that repair is undone; failures that the sweep
+    heuristics explain belong to F1/F2)."""
+    if not (case.get("fn") == "lookup" and _plain(clause) == "overlapping-exact" and _overlap_filter_case(case)):
+        return False
+    return not _pinned_misses(case["genes"], case["q"], True, case["L"])
 
 
 def _mask_to_arc(mask: int, length: int) -> Optional[List[int]]:
